@@ -270,7 +270,7 @@ def stream_cases(draw, tmax):
     shape = draw(st.sampled_from(['any', 'any', 'ignore_all', 'constant']))
     if shape in ('ignore_all', 'constant'):
         for o in cfg['model']['outs']:
-            o['w'] = [0] * cfg['d']
+            o['w'] = [0] * (cfg['d'] + len(cfg.get('extra') or []))
             o['pair'] = None
             o['gate'] = None
     cfg['deltas'] = draw(st.lists(st.sampled_from(['1', '1/2', '1/10', '1/100', '1/1000000', '3/4', '1/1000000000000']),
